@@ -283,6 +283,21 @@ template <int F, class Img> struct Checks
         Dst d2(Rv.width(), Rv.height());
         gil::read_and_convert_view(path, gil::view(d2), tag_t());
         expect_equal_views(gil::const_view(d2), gil::const_view(d), "read_and_convert_view vs read_and_convert_image");
+        // converting reads of sub-rectangles (two per file, derived from its dimensions) == crop of the converting full read
+        i64 W = Rv.width(), H = Rv.height();
+        i64 rects[2][4] = {{W / 3, H / 3, W - W / 3 - (W > 2 ? 1 : 0), H - H / 3 - (H > 2 ? 1 : 0)}, {W > 1 ? 1 : 0, 0, std::max<i64>(1, W - 2), std::max<i64>(1, H - 1)}};
+        for (auto& r : rects)
+        {
+            if (r[2] < 1 || r[3] < 1 || r[0] + r[2] > W || r[1] + r[3] > H) continue;
+            gil::image_read_settings<tag_t> st(gil::point_t(r[0], r[1]), gil::point_t(r[2], r[3]));
+            auto crop = gil::subimage_view(gil::const_view(d), r[0], r[1], r[2], r[3]);
+            Dst d3;
+            gil::read_and_convert_image(path, d3, st);
+            expect_equal_views(gil::const_view(d3), crop, "read_and_convert_image of a sub-rectangle vs crop of the converting full read");
+            Dst d4(r[2], r[3]);
+            gil::read_and_convert_view(path, gil::view(d4), st);
+            expect_equal_views(gil::const_view(d4), crop, "read_and_convert_view of a sub-rectangle vs crop of the converting full read");
+        }
     }
 };
 
